@@ -48,8 +48,38 @@ PROPS = {
         "not_decided": ["fairness of the retry order", "sockets CPython may leak when start_server itself is cancelled", "termination of the retry loop (|configured \\ viewed| decreases: not proved)"],
         "explanation": "",
     },
+    "C12": {
+        "modules": ["contracts.worker_units", "contracts.dispatcher_units", "contracts.c11_ports"],
+        "unit_filter": ["retr_worker@retr", "stor_worker@stor", "stor_worker@appe", "list_worker@list", "mlsd_worker@mlsd", "Server.dispatcher/finally", "Server._start_passive_server"],
+        "level": "proof",
+        "trusted_base": [T_PY, T_ENGINE, T_SOLVER, T_AIO, T_CONN, T_IND],
+        "assumptions": [
+            "every suspension point of a worker may deliver CancelledError (server shutdown, peer disconnect and ABOR all arrive as cancellation); every backend call may raise PathIOError",
+            "A-teardown: while the dispatcher's finally suite waits for the cancelled tasks, those tasks only release (their contracts) and other sessions move shared counters in balanced pairs",
+        ],
+        "not_decided": ["liveness: that cancelled tasks terminate, so that asyncio.wait(tasks_to_wait) and Server.close() complete", "sockets held inside CPython", "Server.close() itself (the cancel-and-await loop over self.connections)"],
+        "explanation": "",
+    },
+    "C13": {
+        "modules": ["contracts.worker_units", "contracts.server_units", "contracts.c13_pathio"],
+        "extra": ["contracts.c13_pathio.structure_check"],
+        "level": "proof",
+        "trusted_base": [T_PY, T_ENGINE, T_SOLVER, T_AIO, T_CONN, T_IND],
+        "assumptions": ["fault quantifier: every call of the abstract backend (exists, is_dir, is_file, stat, list step, mkdir, rmdir, unlink, rename, open, seek, read, write, close) forks a path raising PathIOError, for single and repeated faults alike"],
+        "not_decided": ["behaviour of a real disk", "backends raising non-Exception BaseExceptions", "'other sessions are unaffected' beyond the frame conditions of C17"],
+        "explanation": "",
+    },
+    "C14": {
+        "modules": ["contracts.worker_units", "contracts.server_units"],
+        "unit_filter": ["retr_worker@retr", "stor_worker@stor", "stor_worker@appe", "list_worker@list", "mlsd_worker@mlsd", "Server.abor#SEQ"],
+        "level": "proof",
+        "trusted_base": [T_PY, T_ENGINE, T_SOLVER, T_AIO, T_CONN],
+        "assumptions": ["cancellation is delivered at a suspension point of the task (T-aio); SEQ interference"],
+        "not_decided": ["real timing between client and server", "'only a prefix is delivered or stored' (needs the C01 transfer-loop invariants)"],
+        "explanation": "",
+    },
     "C10": {
-        "modules": ["contracts.c10_limits"],
+        "modules": ["contracts.c10_limits", "contracts.server_units", "contracts.c03_auth", "contracts.dispatcher_units"],
         "level": "proof",
         "trusted_base": [T_PY, T_ENGINE, T_SOLVER, T_AIO, T_CONN, T_IND],
         "assumptions": [],
